@@ -381,10 +381,10 @@ def install(w):
         conf = a["pdu_conf"]
         conf.f["direction"] = Direction.TOWARDS_SENDER  # the real NakPdu mutates and KEEPS the caller's object
         reqs = a["segment_requests"]
-        snap = ListCell(list(reqs.items) if isinstance(reqs.items, list) else reqs.items) if isinstance(reqs, ListCell) else reqs
-        # value snapshot: the environment serialises an emitted PDU before the next handler call (DESIGN section 5)
+        # the real NakPdu KEEPS the caller's list object: a later in-place mutation of that list (append, clear) changes the PDU that
+        # was already queued.  (Across handler calls the environment has serialised the PDU: DESIGN section 5.)
         return SObj(NakPdu, {"pdu_conf": conf, "start_of_scope": a["start_of_scope"], "end_of_scope": a["end_of_scope"],
-                             "segment_requests": snap}, "NakPdu.new")
+                             "segment_requests": reqs}, "NakPdu.new")
 
     # ------------------------------------------------------------------ PduHolder
     @w.stub_call(PduHolder)
